@@ -119,6 +119,14 @@ def finish(ck, pid, opts, rc, merged, death_reports, floor=None, known_death=Non
     os.makedirs(rdir, exist_ok=True)
     n = 0
     for d in death_reports:
+        if d["status"] in (-9, 137):
+            # SIGKILL does not come from the program under test (out-of-memory killer, an operator): not a verdict
+            print("INCONCLUSIVE property=%s worker %s was killed (SIGKILL, e.g. out of memory); last started case: %s" % (pid, d["shard"], d["last_started_case"]))
+            merged["coverage"].setdefault("inconclusive", {})
+            merged["coverage"]["inconclusive"]["worker-killed-SIGKILL"] = merged["coverage"]["inconclusive"].get("worker-killed-SIGKILL", 0) + 1
+            if rc == 0:
+                rc = 2
+            continue
         sig = "process-death/status%s/%s" % (d["status"], (d["last_started_case"] or "unknown").split("#case")[0])
         if sig in known_death:
             print("KNOWN-FINDING: property=%s %s [%s]" % (pid, known_death[sig], sig))
